@@ -318,6 +318,130 @@ class Fn:
         return "<Fn %s>" % self.path
 
 
+# ---------------------------------------------------------------------------
+# Units: a known function with the helpers that did not exist on the reference tree inlined
+#
+# The rules are anchored on the functions of the tree they were confirmed on (sa/baseline_fns.json, regenerated with
+# tools/gen_baseline_fns.py whenever /repo's HEAD moves). A function that is not in that list is new: a helper extracted by
+# a refactoring, a routine added by a change. Its body is spliced into every known caller (MIR level: locals and blocks
+# renumbered, arguments bound by assignments, `return` turned into an assignment of the call's destination and a goto), so
+# that the rule sees the caller as it was before the extraction — and sees *through* a helper that hides something. On the
+# reference tree itself nothing is new and nothing is inlined.
+
+def _cp_place(p, lo):
+    return {"l": p["l"] + lo, "p": [({"idx": x["idx"] + lo} if isinstance(x, dict) and "idx" in x else x) for x in p["p"]]}
+
+
+def _cp_op(op, lo):
+    if "copy" in op:
+        return {"copy": _cp_place(op["copy"], lo)}
+    if "move" in op:
+        return {"move": _cp_place(op["move"], lo)}
+    return op
+
+
+def _cp_rv(rv, lo):
+    r = dict(rv)
+    for k in ("a", "b"):
+        if isinstance(r.get(k), dict):
+            r[k] = _cp_op(r[k], lo)
+    if "place" in r:
+        r["place"] = _cp_place(r["place"], lo)
+    if "ops" in r:
+        r["ops"] = [_cp_op(o, lo) for o in r["ops"]]
+    return r
+
+
+def _cp_stmt(st, lo):
+    r = dict(st)
+    if "place" in r:
+        r["place"] = _cp_place(r["place"], lo)
+    if "rv" in r:
+        r["rv"] = _cp_rv(r["rv"], lo)
+    return r
+
+
+def _cp_term(t, lo, bo):
+    r = dict(t)
+    k = r["k"]
+    if k == "call":
+        r["args"] = [_cp_op(a, lo) for a in r["args"]]
+        if r.get("dest") is not None:
+            r["dest"] = _cp_place(r["dest"], lo)
+        if r.get("t") is not None:
+            r["t"] = r["t"] + bo
+    elif k == "switch":
+        r["op"] = _cp_op(r["op"], lo)
+        r["targets"] = [[v, b + bo] for v, b in r["targets"]]
+        r["otherwise"] = r["otherwise"] + bo
+    elif k in ("goto", "drop", "assert"):
+        r["t"] = r["t"] + bo
+        if "place" in r:
+            r["place"] = _cp_place(r["place"], lo)
+        if isinstance(r.get("cond"), dict):
+            r["cond"] = _cp_op(r["cond"], lo)
+    elif k == "other":
+        r["succ"] = [b + bo for b in r.get("succ", [])]
+    return r
+
+
+def inline_new_callees(fn, fns, is_new, max_inlines=24):
+    """A copy of `fn` in which every call to a function for which is_new(path) holds (and whose body is known) is replaced by
+    that body. Returns (Fn, [paths inlined]) or (fn, []) when there is nothing to do."""
+    if not any(is_new(c.callee) and c.callee in fns and c.callee != fn.path for c in fn.calls()):
+        return fn, []
+    import copy
+    d = dict(fn.d)
+    mir = {"argc": fn.mir["argc"], "locals": [dict(l) for l in fn.mir["locals"]],
+           "blocks": [{"stmts": list(b["stmts"]), "term": b["term"], "cleanup": b["cleanup"]} for b in fn.mir["blocks"]]}
+    done = []
+    stack_of = {}     # block index -> tuple of callee paths it was inlined from (recursion guard)
+    work = True
+    while work and len(done) < max_inlines:
+        work = False
+        for bi in range(len(mir["blocks"])):
+            b = mir["blocks"][bi]
+            t = b["term"]
+            if t["k"] != "call" or b["cleanup"] or t.get("t") is None:
+                continue
+            callee = t["func"].get("resolved", t["func"]["path"])
+            if not is_new(callee) or callee not in fns or callee == fn.path or callee in stack_of.get(bi, ()):
+                continue
+            g = fns[callee]
+            if g.kind == "closure" or len(t["args"]) != g.mir["argc"]:
+                continue
+            lo, bo = len(mir["locals"]), len(mir["blocks"])
+            for l in g.mir["locals"]:
+                l2 = dict(l)
+                if l2.get("name"):
+                    l2["name"] = l2["name"]
+                mir["locals"].append(l2)
+            # bind the arguments (parameter i of g is local i+1)
+            binds = [{"k": "assign", "place": {"l": lo + i + 1, "p": []}, "rv": {"k": "use", "a": a}, "loc": t.get("loc", "?"),
+                      "inlined": callee} for i, a in enumerate(t["args"])]
+            origin = stack_of.get(bi, ()) + (callee,)
+            for gi, gb in enumerate(g.mir["blocks"]):
+                nb = {"stmts": [_cp_stmt(st, lo) for st in gb["stmts"]], "cleanup": gb["cleanup"]}
+                gt = gb["term"]
+                if gt["k"] == "return" and not gb["cleanup"]:
+                    if t.get("dest") is not None:
+                        nb["stmts"].append({"k": "assign", "place": t["dest"], "rv": {"k": "use", "a": {"move": {"l": lo, "p": []}}},
+                                            "loc": gt.get("loc", "?"), "inlined": callee})
+                    nb["term"] = {"k": "goto", "t": t["t"], "loc": gt.get("loc", "?"), "inlined": callee}
+                else:
+                    nb["term"] = _cp_term(gt, lo, bo)
+                mir["blocks"].append(nb)
+                stack_of[bo + gi] = origin
+            b["stmts"] = b["stmts"] + binds
+            b["term"] = {"k": "goto", "t": bo, "loc": t.get("loc", "?"), "inlined": callee}
+            done.append(callee)
+            work = True
+            break
+    d["mir"] = mir
+    d["inlined"] = done
+    return Fn(fn.crate, d), done
+
+
 class Facts:
     def __init__(self, directory):
         self.dir = directory
@@ -343,6 +467,46 @@ class Facts:
                 self.impls.append(i)
         self._closures = None
         self._callers = None
+        self.inlined = {}
+        self._apply_baseline()
+
+    def _apply_baseline(self):
+        """Splice functions that are not on the reference tree into their known callers (see inline_new_callees)."""
+        bp = os.path.join(os.path.dirname(os.path.abspath(__file__)), "baseline_fns.json")
+        if os.environ.get("VERIF_NO_INLINE") or not os.path.exists(bp):
+            return
+        with open(bp) as fh:
+            base = set(json.load(fh))
+
+        def is_new(path):
+            return "{closure" not in path and path in self.fns and path not in base
+        new = {p for p in self.fns if is_new(p)}
+        if not new:
+            return
+        raw = dict(self.fns)
+        spliced = set()
+        for p, f in list(raw.items()):
+            if p in new:
+                continue
+            g, done = inline_new_callees(f, raw, is_new)
+            if done:
+                self.fns[p] = g
+                self.inlined[p] = done
+                spliced |= set(done)
+        # a helper that lives on inside its callers is not analysed a second time on its own (rules that enumerate "every
+        # function that does X" would otherwise meet the same code twice, once out of context); one that is still called
+        # somewhere as a function stays
+        still_called = set()
+        for p, f in self.fns.items():
+            if p in new and p in spliced:
+                continue
+            for c in f.calls():
+                if c.callee in spliced:
+                    still_called.add(c.callee)
+        for p in spliced - still_called:
+            self.fns.pop(p, None)
+            self.fns_all.pop(p, None)
+        self.spliced = spliced - still_called
 
     def check_floors(self):
         bad = []
@@ -383,6 +547,8 @@ class Facts:
                 if f.kind == "closure":
                     self._closures.setdefault(f.d["parent"], []).append(f)
         out = list(self._closures.get(path, []))
+        for q in self.inlined.get(path, []):
+            out.extend(self._closures.get(q, []))
         if recursive:
             i = 0
             while i < len(out):
